@@ -816,6 +816,7 @@ CLOSURE_ADAPTERS = {
     'core::result::Result::map_err': (True, 'Err', 'call-wrap', 'keep'),
     'core::option::Option::and_then': (False, 'Some', 'call', 'keep'),
     'core::result::Result::and_then': (True, 'Ok', 'call', 'keep'),
+    'core::result::Result::or_else': (True, 'Err', 'call', 'keep'),
     'core::option::Option::unwrap_or': (False, 'Some', 'payload', 'arg'),
     'core::result::Result::unwrap_or': (True, 'Ok', 'payload', 'arg'),
     'core::option::Option::unwrap_or_else': (False, 'Some', 'payload', 'call0'),
@@ -835,6 +836,35 @@ def _closure_literal(D, o):
     l = o['pl']['l']
     defs = [s_ for b in D['blocks'] for s_ in b['stmts'] if s_['s'] == 'assign' and s_['pl']['l'] == l]
     return len(defs) == 1 and not defs[0]['pl']['p'] and defs[0]['rv']['r'] == 'agg' and 'closure' in defs[0]['rv']
+
+
+def _sink_pure_default(D, o):
+    """`x.map_or(Enum::A, f)` / `x.unwrap_or(Enum::A)`: the eagerly built default is a constant aggregate used only by this
+    call - returns its rvalue (and removes the eager statement) so that it can be built on the arm that uses it"""
+    if o.get('k') not in ('copy', 'move') or o['pl']['p']:
+        return None
+    l = o['pl']['l']
+    defs = []
+    uses = 0
+    for b in D['blocks']:
+        for s_ in b['stmts']:
+            if s_['s'] == 'assign' and s_['pl']['l'] == l and not s_['pl']['p']:
+                defs.append((b, s_))
+            elif s_['s'] == 'assign' and l in _locals_in(s_['rv']):
+                uses += 1
+            elif s_['s'] == 'assign' and s_['pl']['l'] == l:
+                uses += 1
+        tt = b['term']
+        if l in _locals_in({k: v for k, v in tt.items() if k in ('args', 'discr', 'pl', 'dest', 'cond', 'a')}):
+            uses += 1
+    if len(defs) != 1 or uses != 1:
+        return None
+    blk, st = defs[0]
+    rv = st['rv']
+    if rv['r'] != 'agg' or 'adt' not in rv or any(a.get('k') != 'const' for a in rv.get('a', [])):
+        return None
+    blk['stmts'].remove(st)
+    return copy.deepcopy(rv)
 
 
 def expand_closure_adapters(P, D):
@@ -931,9 +961,13 @@ def expand_closure_adapters(P, D):
                       _assign(dest, {'r': 'agg', 'adt': outer, 'variant': other, 'fields': ['0'], 'a': [{'k': 'move', 'pl': {'l': e_, 'p': []}}]}, line)]
             new_blocks.append({'cleanup': False, 'inl': 'adapter', 'stmts': st, 'term': {'t': 'goto', 'succ': [join]}})
         elif other_do == 'arg':
-            new_blocks.append({'cleanup': False, 'inl': 'adapter', 'stmts': [_assign(dest, _use(t['args'][1]), line)], 'term': {'t': 'goto', 'succ': [join]}})
+            dflt = _use(t['args'][1])
+            sunk = _sink_pure_default(D, t['args'][1])
+            if sunk is not None:
+                dflt = sunk      # the default was a literal built just for this call: it is built where it is used
+            new_blocks.append({'cleanup': False, 'inl': 'adapter', 'stmts': [_assign(dest, dflt, line)], 'term': {'t': 'goto', 'succ': [join]}})
         elif other_do in ('true', 'false'):
-            new_blocks.append({'cleanup': False, 'inl': 'adapter', 'stmts': [_assign(dest, _use({'k': 'const', 'ty': 'bool', 'val': other_do, 'repr': 'const ' + other_do}), line)],
+            new_blocks.append({'cleanup': False, 'inl': 'adapter', 'stmts': [_assign(dest, _use({'k': 'const', 'ty': 'bool', 'val': '1' if other_do == 'true' else '0', 'repr': 'const ' + other_do}), line)],
                                'term': {'t': 'goto', 'succ': [join]}})
         elif other_do == 'call0':
             new_blocks.append({'cleanup': False, 'inl': 'adapter', 'stmts': [_assign({'l': unit_, 'p': []}, {'r': 'agg', 'tuple': True, 'a': []}, line)],
@@ -1057,9 +1091,10 @@ class Inliner:
             did = False
             for cs in B.calls():
                 tgt = cs.resolved if self.is_helper(cs.resolved) else (cs.declared if self.is_helper(cs.declared) else None)
-                if tgt is None and cs.declared == 'core::convert::Into::into':
-                    # `a.into()` is std's blanket impl: `B::from(a)` - if that From impl is a new helper, it is the callee
-                    ip = from_impl_for_into(self.P, cs.gargs)
+                if tgt is None and cs.declared in ('core::convert::Into::into', 'core::convert::TryInto::try_into'):
+                    # `a.into()` / `a.try_into()` are std's blanket impls: `B::from(a)` / `B::try_from(a)` - if that impl is a
+                    # new helper, it is the callee
+                    ip = from_impl_for_into(self.P, cs.gargs, 'TryFrom' if cs.declared.endswith('try_into') else 'From')
                     if ip is not None and self.is_helper(ip):
                         tgt = ip
                 if tgt is None and cs.t.get('devirt') and cs.resolved:
@@ -1119,14 +1154,14 @@ class Inliner:
         return bool(D.get('inlined')) or bool(D.get('adapters'))
 
 
-def from_impl_for_into(P, gargs):
+def from_impl_for_into(P, gargs, trait='From'):
     """path of `<B as From<A>>::from` in the program for an `Into::into` call with type arguments [A, B] (None if there
     is none, or the types are not concrete)"""
     ga = _split_gargs(gargs)
     if not ga or len(ga) != 2 or any('/#' in g for g in ga) or norm(ga[0]) == norm(ga[1]):
         return None
     try:
-        ib = P.find_impl('core::convert::From', norm(ga[1]), 'from', norm(ga[0]))
+        ib = P.find_impl('core::convert::' + trait, norm(ga[1]), 'from' if trait == 'From' else 'try_from', norm(ga[0]))
     except Exception:
         return None
     return ib.path if ib is not None else None
@@ -1225,13 +1260,25 @@ def relocate_moved(P, known):
                         if not b2.is_promoted:
                             out |= {cs.resolved or cs.declared for cs in b2.calls() if (cs.resolved or cs.declared)}
             return out
+        try:
+            import facts as _f
+            known_adts_ = {l.strip() for l in open(os.path.join(os.path.dirname(os.path.abspath(__file__)), 'known_adts.txt')) if l.strip()}
+        except Exception:
+            known_adts_ = set()
         still_gone = [k for k in known if k not in present and k not in alias.values() and k in sigs and len(sigs[k]) > 5 and len(sigs[k][5]) >= 3]
         newcomers = [p for p, b_ in present.items() if p not in known and p not in alias]
         for k in still_gone:
             sg = sigs[k]
             old_c = set(sg[5])
             crate_ = k.split('::')[0]
-            cands = [u for u in newcomers if u.split('::')[0] == crate_ and bool(present[u].is_async) == bool(sg[1]) and u not in alias]
+            def on_new_type(u):
+                # the newcomer is a method of a type that did not exist on the pinned tree (the parameter object)
+                si = present[u].sig_in or []
+                if not si:
+                    return False
+                t0 = norm(re.sub(r'<.*$', '', re.sub(r'^&(mut )?', '', si[0])))
+                return t0.split('::')[0] == crate_ and t0 in P.adts and t0 not in known_adts_
+            cands = [u for u in newcomers if u.split('::')[0] == crate_ and bool(present[u].is_async) == bool(sg[1]) and u not in alias and on_new_type(u)]
             scored = sorted(((len(old_c & callees_of2(u)) / max(1, len(old_c | callees_of2(u))), u) for u in cands), reverse=True)
             if scored and scored[0][0] >= 0.6 and (len(scored) == 1 or scored[0][0] >= 1.5 * scored[1][0]):
                 alias[scored[0][1]] = k
